@@ -167,25 +167,23 @@ func replayAll(r *ev.Run, walks [][]brk.CtlStep, baseSeed int64) (found []ctlFin
 	return
 }
 
-// confirm re-runs a divergent walk twice, serially; the divergence counts only
-// if it shows up both times.
-func confirm(f ctlFinding) bool {
-	for k := 0; k < 2; k++ {
+// confirm re-runs a divergent walk serially, up to four times, and counts how often the divergence
+// shows up again (two are enough).
+func confirm(f ctlFinding) int {
+	hits := 0
+	for k := 0; k < 4 && hits < 2; k++ {
 		res, err := brk.ReplayCtl(f.steps, f.seed, brk.CtlOpts{})
 		if err != nil || res == nil {
-			return false
+			continue
 		}
-		ok := false
 		for _, d := range res.Divs {
 			if d.Prop == f.div.Prop && d.Aspect == f.div.Aspect {
-				ok = true
+				hits++
+				break
 			}
 		}
-		if !ok {
-			return false
-		}
 	}
-	return true
+	return hits
 }
 
 func report(r *ev.Run, prop string, found []ctlFinding) {
@@ -204,8 +202,12 @@ func report(r *ev.Run, prop string, found []ctlFinding) {
 		if f.div.Prop != prop || seen[f.div.Aspect] {
 			continue
 		}
-		if !confirm(f) {
-			r.Inconclusive("divergence %s/%s did not reproduce: %s", f.div.Prop, f.div.Aspect, f.div.Desc)
+		switch n := confirm(f); {
+		case n == 0:
+			transient(r, "divergence %s/%s: %s", f.div.Prop, f.div.Aspect, f.div.Desc)
+			continue
+		case n == 1:
+			r.Inconclusive("divergence %s/%s reproduced only once in four re-runs: %s", f.div.Prop, f.div.Aspect, f.div.Desc)
 			continue
 		}
 		seen[f.div.Aspect] = true
